@@ -13,15 +13,18 @@ from .. import cover, monitor
 
 RULE = ('basis: every integer plane with |h|,|k|,|l| <= 2 (thorough: 3) is enumerated EXHAUSTIVELY for 15 cell classes '
         '(7 crystal families in the primitive setting, hexagonal with Miller-Bravais indices, 7 centred settings '
-        'f,i,a,b,c,t1,t2 with a primitive unit cell) x 3 cut vectors, each in a freshly drawn cell of the class; '
-        'rcell: FreeSurface objects for every plane within the bound x 15 classes (cut c); surface/fault: cases are '
+        'f,i,a,b,c,t1,t2 with a primitive unit cell), each call in a freshly drawn cell of the class; x 3 cut vectors '
+        '(quick: the 7 centred classes see every plane with the cut vector cycled instead); rcell: FreeSurface objects '
+        'for every plane within the bound x 8 (thorough 15) classes (cut c); surface/fault: cases are '
         'stratified round-robin over cell class x flagged/cycled plane x cut vector x basis kind x size/minwidth/'
         'vacuum/even/shift options; sequences of surface()/fault() calls run on ONE object.  A case is non-trivial '
         'when the call returned a cell (not a refusal); distinct = distinct fingerprint of (cell, plane, options).')
 ASSUMPTIONS = ['unit cells are right-handed, LAMMPS-oriented, volume >= 10% of abc, origin within 0.3 L of zero',
                'with a centred conventional_setting the given ucell is the primitive cell whose vectors are the '
                'documented centring vectors of the conventional cell (miller.vector_primitive_to_conventional)',
-               'atomic layers closer than 1e-5 L to each other (but not coincident) are exempt from the shift clauses',
+               'cells whose atomic layers lie between 1e-10 L and 1.5x the code\'s merge tolerance (1e-7 / 1e-8) apart are exempt from the shift '
+               'and between-layers clauses (undecidable whether they are one layer); the between-layers margin is min(1e-6 L, 0.4 x smallest gap)',
+               '"same crystal" allows one rigid translation of the whole crystal (System.rotate may re-base atoms when the box origin is not zero)',
                'atoms within 1e-7 L of the fault plane are exempt from the above/below clauses (counted)',
                'oracle shares numpy/LAPACK with the code under test']
 CONFIG = {'quick': {'timeout': 1800}, 'thorough': {'seeds': 2, 'timeout': 7200}}
@@ -192,19 +195,22 @@ def check_object(rec, fs, cell, hkl, cutname, setting, kind='FreeSurface'):
     cr = X.Crystal(vects, cell['origin'], cell['sites'], cell['types'])
     pos = np.asarray(r.atoms.pos, float)
     tol = 1e-7 * L
-    site, _, dist = cr.match(pos @ T, r.atoms.atype, tol)
+    # "the same crystal": every atom, mapped back by transform, sits on a site of the ucell crystal up to ONE rigid
+    # translation t0 of the whole crystal (System.rotate is free to re-base the atoms when the box origin is not zero)
+    pos_u = pos @ T
+    t0 = np.zeros(3)
+    site, _, dist = cr.match(pos_u, r.atoms.atype, tol)
     nbad = int((site < 0).sum())
     if nbad:
-        tr = cr.find_translation(pos @ T, r.atoms.atype, tol)
+        tr = cr.find_translation(pos_u, r.atoms.atype, tol, prefer=int(np.asarray(r.atoms.tag)[0]))
         if tr is not None and tr[1] == 0:
-            rec.fail('rcell atoms are the ucell crystal mapped by transform (no extra translation)', key + 'rcell-translated',
-                     translation=tr[0], **det)
-        else:
-            rec.check(False, 'every rcell atom sits on a site of the ucell crystal mapped by transform, with that site\'s type',
-                      key + 'rcell-sites', unmatched=nbad, natoms=r.natoms, worst=float(dist.max()), **det)
-    else:
-        rec.check(True, 'every rcell atom sits on a site of the ucell crystal mapped by transform, with that site\'s type',
-                  key + 'rcell-sites')
+            t0 = tr[0]
+            rec.count('object:rcell-rigidly-translated')
+            site, _, dist = cr.match(pos_u - t0, r.atoms.atype, tol)
+            nbad = int((site < 0).sum())
+    rec.check(nbad == 0, 'every rcell atom sits on a site of the ucell crystal mapped by transform (up to one rigid translation), '
+              'with that site\'s type', key + 'rcell-sites', unmatched=nbad, natoms=r.natoms, worst=float(dist.max()), **det)
+    if nbad == 0:
         rec.check(np.array_equal(np.asarray(r.atoms.tag).astype(int), site), 'per-atom properties follow their atoms into rcell',
                   key + 'rcell-props')
     nexp = int(round(abs(np.linalg.det(up)))) * len(cell['types'])
@@ -219,7 +225,8 @@ def check_object(rec, fs, cell, hkl, cutname, setting, kind='FreeSurface'):
     D = abs(float((up[cut] @ vects) @ gh))
     rec.close(1e-9 * L * max(1.0, np.abs(up).max()), fs.rcellwidth, D, 'rcellwidth is the extent of the cut vector along the plane normal',
               key + 'rcellwidth', **det)
-    heights = (cr.sites @ vects + cr.origin) @ gh
+    # absolute heights (rotated frame, along the cut axis) of every atomic layer of the crystal
+    heights = (cr.sites @ vects + cr.origin + t0) @ gh
     # lattice planes of the primitive lattice along g: spacing d = gcd(h_p)/|g|
     den = X.DENOM[setting]
     hp = np.rint((X.CENTRING[setting] @ hkl3) * den).astype(int)
@@ -230,17 +237,24 @@ def check_object(rec, fs, cell, hkl, cutname, setting, kind='FreeSurface'):
               key + 'rcellwidth-multiple', ratio=nper, **det)
     nper = int(round(nper))
     allh = (heights[:, None] + d * np.arange(nper)[None, :]).ravel()
-    layers, mingap = X.layer_heights(allh, D, 1e-7 * L)
+    # the code merges layers by rounding to its tol (1e-7 FreeSurface, 1e-8 StackingFault, absolute): heights further apart
+    # than tol are distinct layers, heights within 1e-10 L are one layer, anything in between is undecidable (exempt)
+    ctol = 1e-7 if kind == 'FreeSurface' else 1e-8
+    hs = np.sort(allh % D)
+    dh = np.diff(np.append(hs, hs[0] + D))
+    ambiguous = bool(np.any((dh > 1e-10 * L) & (dh <= 1.5 * ctol)))
+    layers, mingap = X.layer_heights(allh, D, 1e-10 * L)
+    o_cut = float(r.box.origin[cut])
     shifts = np.asarray(fs.shifts, float)
-    info = dict(cell=cell, cr=cr, hkl3=hkl3, setting=setting, cut=cut, inpl=inpl, T=T, up=up, rv=rv_exp, D=D, L=L, e=e,
-                layers=layers, mingap=mingap, shifts_exp=None, nrcell=nexp, kind=kind, conv=conv, steps=0)
+    info = dict(cell=cell, cr=cr, hkl3=hkl3, setting=setting, cut=cut, inpl=inpl, T=T, up=up, rv=rv_exp, D=D, L=L, e=e, t0=t0,
+                layers=layers, mingap=mingap, shifts_exp=None, nrcell=nexp, kind=kind, conv=conv, steps=0, ambiguous=ambiguous)
     fs._vf = info
-    if mingap < 1e-5 * L:
-        rec.count('exempt:near-coincident-layers')
-        info['shifts_exp'] = None
+    if ambiguous:
+        rec.count('exempt:layers-closer-than-the-merge-tolerance')
     else:
+        # a shift s is a termination iff it carries a gap mid-point onto the slab boundary (the box origin along the cut)
         mids = (layers + np.diff(np.append(layers, layers[0] + D)) / 2.0)
-        sexp = np.sort((D - mids) % D)
+        sexp = np.sort((o_cut - mids) % D)
         info['shifts_exp'] = sexp
         okshape = shifts.ndim == 2 and shifts.shape[1] == 3
         rec.check(okshape and len(shifts) == len(sexp), 'one shift is offered per gap between neighbouring atomic layers',
@@ -337,7 +351,7 @@ def check_slab(rec, fs, slab, info, p, old):
     pos = np.asarray(slab.atoms.pos, float)
     cr = info['cr']
     tol = 1e-7 * L
-    site, _, dist = cr.match((pos - shift) @ T, slab.atoms.atype, tol)
+    site, _, dist = cr.match((pos - shift) @ T - info['t0'], slab.atoms.atype, tol)
     nbad = int((site < 0).sum())
     rec.check(nbad == 0, 'every slab atom sits on a site of the ucell crystal (mapped by transform and shift) with that site\'s type',
               key + 'sites', unmatched=nbad, natoms=slab.natoms, worst=float(dist.max()), **det)
@@ -362,17 +376,20 @@ def check_slab(rec, fs, slab, info, p, old):
     hi = lo + bv[cut, cut]
     c = pos[:, cut]
     mlo, mhi = float(c.min() - lo), float(hi - c.max())
-    if offered:
+    if offered and info['ambiguous']:
+        rec.count('exempt:between-layers-undecidable')
+    elif offered:
         rec.count('monitor:between-layers-evaluated')
-        rec.check(mlo > 1e-6 * L and mhi > 1e-6 * L, 'with an offered shift every atom is strictly inside (lo,hi) along the cut '
-                  'by more than 1e-6 L', key + 'between-layers', margin_lo=mlo, margin_hi=mhi, **det)
-        if info['shifts_exp'] is not None:
-            if not vac:
-                rec.close(1e-7 * L, mlo, mhi, 'the cut is midway between the two layers it separates (documented for .shifts)', key + 'midway',
-                          margin_lo=mlo, margin_hi=mhi, **det)
-            gaps = np.diff(np.append(info['layers'], info['layers'][0] + D))
-            rec.check(np.abs(gaps - (mlo + mhi - vac)).min() <= 2e-7 * L, 'the opened gap is one of the crystal\'s interlayer gaps',
-                      key + 'gap', got=mlo + mhi - vac, gaps=gaps, **det)
+        thr = min(1e-6 * L, 0.4 * info['mingap'])          # the cut opens a gap >= mingap and sits in its middle
+        rec.check(mlo > thr and mhi > thr, 'with an offered shift every atom is strictly inside (lo,hi) along the cut '
+                  'by more than 1e-6 L (0.4 x the smallest interlayer gap if that is smaller)', key + 'between-layers',
+                  margin_lo=mlo, margin_hi=mhi, threshold=thr, **det)
+        if not vac:
+            rec.close(1e-7 * L, mlo, mhi, 'the cut is midway between the two layers it separates (documented for .shifts)', key + 'midway',
+                      margin_lo=mlo, margin_hi=mhi, **det)
+        gaps = np.diff(np.append(info['layers'], info['layers'][0] + D))
+        rec.check(np.abs(gaps - (mlo + mhi - vac)).min() <= 2e-7 * L, 'the opened gap is one of the crystal\'s interlayer gaps',
+                  key + 'gap', got=mlo + mhi - vac, gaps=gaps, **det)
     area_exp = np.linalg.norm(np.cross(bv_exp[inpl[0]], bv_exp[inpl[1]]))
     rec.close(1e-9 * area_exp, fs.surfacearea, area_exp, 'surfacearea = |cross| of the in-plane vectors', key + 'area', **det)
     info['slab'] = dict(m=m, vac=vac, bv=bv_exp, pos=pos.copy(), lo=lo, hi=hi, natoms=slab.natoms)
@@ -965,8 +982,8 @@ def run(ctx):
             elif fpmode == 'rel':
                 kw['faultpos_rel'] = ((vac or 0.0) / 2 + jgap * D) / W
             else:
-                # Cartesian: slab origin along the cut is rcell origin (0) minus half the vacuum
-                kw['faultpos_cart'] = -(vac or 0.0) / 2 + jgap * D
+                # Cartesian: slab origin along the cut is the rcell origin minus half the vacuum; cell boundaries are gap mid-points
+                kw['faultpos_cart'] = float(sf.rcell.box.origin[cut]) - (vac or 0.0) / 2 + jgap * D
             ok = False
             with ctx.guard('StackingFault.surface() builds the slab', 'sfsurface:exception'):
                 sf.surface(**kw)
